@@ -1,6 +1,6 @@
 # replay of a solver counterexample against the real library (exit 1 = reproduces)
 import sys, warnings
-sys.path.insert(0, '/repo')
+sys.path.insert(0, '/tmp/sr/C15-m5')
 warnings.simplefilter('ignore')
 import numpy as np
 from svgpathtools import *
@@ -13,7 +13,7 @@ def NOT_REPRODUCED(msg=''):
     print('not reproduced', msg); sys.exit(0)
 
 
-ps = [(1-1j), 0j, 0j, 0j]; t = 1; want_dir = (-1+1j)
+ps = [(3.814697265625e-06+0j), 0j, 0j, 0j]; t = 1; want_dir = (-3.814697265625e-06+0j)
 seg = bpoints2bezier(ps)
 try:
     ut = seg.unit_tangent(t)
